@@ -561,9 +561,94 @@ fn dev_strategy() -> impl Strategy<Value = DevCase> {
         })
 }
 
+/// Two views of ONE buffer that start at the same element but have different strides
+/// (a matrix and its transpose; a prefix and an every-second-element view).
+#[derive(Clone, Debug, Serialize, Deserialize, Hash)]
+pub struct DevAliasCase {
+    pub f64_: bool,
+    /// 0: square matrix vs its transpose, 1: 1-D prefix vs stepped view
+    pub mode: u8,
+    pub side: usize,
+    pub vals: Vec<i8>,
+}
+
+fn alias_views<T: Clone>(c: &DevAliasCase, conv: impl Fn(i8) -> T) -> Option<(ArrayD<T>, Vec<i128>, Vec<i128>, bool)> {
+    let k = c.side;
+    if k == 0 {
+        return None;
+    }
+    if c.mode % 2 == 0 {
+        if c.vals.len() < k * k {
+            return None;
+        }
+        let base = Array2::from_shape_vec((k, k), c.vals[..k * k].iter().map(|&v| conv(v)).collect()).ok()?;
+        let a: Vec<i128> = c.vals[..k * k].iter().map(|&v| v as i128).collect();
+        let mut b = vec![0i128; k * k];
+        for i in 0..k {
+            for j in 0..k {
+                b[i * k + j] = a[j * k + i];
+            }
+        }
+        Some((base.into_dyn(), a, b, true))
+    } else {
+        if c.vals.len() < 2 * k {
+            return None;
+        }
+        let base = ndarray::Array1::from(c.vals[..2 * k].iter().map(|&v| conv(v)).collect::<Vec<T>>());
+        let a: Vec<i128> = c.vals[..k].iter().map(|&v| v as i128).collect();
+        let b: Vec<i128> = (0..k).map(|i| c.vals[2 * i] as i128).collect();
+        Some((base.into_dyn(), a, b, false))
+    }
+}
+
+pub fn check_dev_alias(c: &DevAliasCase) -> CheckResult {
+    macro_rules! go {
+        ($t:ty, $conv:expr, $maxv:expr) => {{
+            let (base, a, b, square) = match alias_views::<$t>(c, $conv) {
+                Some(x) => x,
+                None => return Ok(Info::discarded()),
+            };
+            let k = c.side;
+            let (va, vb) = if square {
+                let m = base.view().into_dimensionality::<Ix2>().unwrap();
+                (m.into_dyn(), base.view().into_dimensionality::<Ix2>().unwrap().reversed_axes().into_dyn())
+            } else {
+                let v = base.view().into_dimensionality::<ndarray::Ix1>().unwrap();
+                (v.slice_move(ndarray::s![..k]).into_dyn(), base.view().into_dimensionality::<ndarray::Ix1>().unwrap().slice_move(ndarray::s![..;2]).into_dyn())
+            };
+            if va.as_ptr() != vb.as_ptr() {
+                return Ok(Info::discarded());
+            }
+            let d = match catch(|| dev_all(&va, &vb, $maxv)) {
+                Ok(Ok(d)) => d,
+                Ok(Err(e)) => fail!("error-kind", "deviation routine returned {:?} for two aliasing views of equal shape", e),
+                Err(p) => fail!("panic", "deviation routine panicked on aliasing views: {}", p),
+            };
+            let n = a.len();
+            let eq = a.iter().zip(&b).filter(|(x, y)| x == y).count();
+            let sq: i128 = a.iter().zip(&b).map(|(x, y)| (x - y) * (x - y)).sum();
+            let l1: i128 = a.iter().zip(&b).map(|(x, y)| (x - y).abs()).sum();
+            let linf: i128 = a.iter().zip(&b).map(|(x, y)| (x - y).abs()).max().unwrap_or(0);
+            ensure!(d.count_eq == eq && d.count_eq + d.count_neq == n, "wrong-value", "aliasing views (same first element, different strides): count_eq = {}, expected {} of {}", d.count_eq, eq, n);
+            ensure!(d.sq.to_f64() == Some(sq as f64), "wrong-value", "aliasing views: sq_l2_dist = {:?}, exact {} (a {:?}, b {:?})", d.sq, sq, a, b);
+            ensure!(d.l1.to_f64() == Some(l1 as f64), "wrong-value", "aliasing views: l1_dist = {:?}, exact {} (a {:?}, b {:?})", d.l1, l1, a, b);
+            ensure!(d.linf.to_f64() == Some(linf as f64), "wrong-value", "aliasing views: linf_dist = {:?}, exact {} (a {:?}, b {:?})", d.linf, linf, a, b);
+            derived_checks(n, sq as f64, l1 as f64, 8.0 * 2f64.powi(-53), 8.0 * 2f64.powi(-53), 100.0, (d.l2, d.mae, d.mse, d.rmse, d.psnr), "aliasing views")?;
+            a.iter().zip(&b).filter(|(x, y)| x != y).count()
+        }};
+    }
+    let differing = if c.f64_ { go!(f64, |v: i8| v as f64, 100.0) } else { go!(i64, |v: i8| v as i64, 100) };
+    Ok(Info::new(differing >= 2).class("operands:aliasing-views").class_if(c.mode % 2 == 0, "alias:matrix-vs-transpose").class_if(c.mode % 2 == 1, "alias:prefix-vs-stepped"))
+}
+
+fn dev_alias_strategy() -> impl Strategy<Value = DevAliasCase> {
+    (any::<bool>(), 0u8..2, 1usize..7, proptest::collection::vec(-9i8..10, 49)).prop_map(|(f64_, mode, side, vals)| DevAliasCase { f64_, mode, side, vals })
+}
+
 pub fn run_c09(ctx: &Ctx) {
     let t = ctx.tier();
     ctx.run_proptest("dev", t.pick(40_000, 2_000_000), dev_strategy(), &check_dev);
+    ctx.run_proptest("dev-alias", t.pick(8_000, 200_000), dev_alias_strategy(), &check_dev_alias);
 }
 
 // ---------------------------------------------------------------------------------------
@@ -665,6 +750,31 @@ pub fn check_ent_f<F: Fl>(c: &EntCase) -> CheckResult {
     }
     if !h_nan {
         ensure!(klpp == 0.0, "wrong-value", "KL(p,p) = {:e}, must be zero (p {:?})", klpp, p64);
+    } else {
+        ensure!(klpp.is_nan(), "wrong-value", "KL(p,p) = {:e} although p contains a NaN (a contributing term is NaN); p {:?}", klpp, p64);
+    }
+    // p against a view of the same buffer with the same first element but other strides
+    // (the reversed-axes view of a shape that reads the same backwards)
+    let palin = c.shape.len() >= 2 && c.shape.iter().eq(c.shape.iter().rev());
+    if palin && !has_nan {
+        let owned = vp.to_owned();
+        let pt = owned.view().reversed_axes();
+        let q64t: Vec<f64> = pt.iter().map(|x| x.to64()).collect();
+        if p64.iter().zip(&q64t).all(|(a, b)| *a == 0.0 || *b > 0.0) {
+            let (ce2, kl2) = match catch(|| (owned.cross_entropy(&pt), owned.kl_divergence(&pt))) {
+                Ok((Ok(a), Ok(b))) => (a.to64(), b.to64()),
+                Ok(other) => fail!("error-kind", "entropy family returned an error for an array and its reversed-axes view: {:?}", other),
+                Err(pn) => fail!("panic", "entropy family panicked on aliasing views: {}", pn),
+            };
+            let ce_terms: Vec<f64> = p64.iter().zip(&q64t).map(|(&a, &b)| if a == 0.0 { 0.0 } else { a * b.ln() }).collect();
+            let kl_terms: Vec<f64> = p64.iter().zip(&q64t).map(|(&a, &b)| if a == 0.0 { 0.0 } else { a * (b / a).ln() }).collect();
+            if ce_terms.iter().chain(kl_terms.iter()).all(|t| t.is_finite()) {
+                let ce_t = comp_sum(ce_terms.iter().map(|t| t.abs()));
+                let kl_t = comp_sum(kl_terms.iter().map(|t| t.abs())) + comp_sum(p64.iter().map(|x| x.abs()));
+                ensure!(close(ce2, -comp_sum(ce_terms.iter().cloned()), 2.0 * g * ce_t + F::TINY, F::U), "tolerance", "cross_entropy(p, reversed-axes view of p) = {:e}, -sum p ln q = {:e} (p {:?})", ce2, -comp_sum(ce_terms.iter().cloned()), p64);
+                ensure!(close(kl2, -comp_sum(kl_terms.iter().cloned()), 2.0 * g * kl_t + F::TINY, F::U), "tolerance", "kl_divergence(p, reversed-axes view of p) = {:e}, -sum p ln(q/p) = {:e} (p {:?})", kl2, -comp_sum(kl_terms.iter().cloned()), p64);
+            }
+        }
     }
     Ok(Info::new(n >= 3 && resolving && (zero_p || zero_q || c.layout_p != c.layout_q))
         .class(if F::IS32 { "type:f32" } else { "type:f64" })
@@ -737,7 +847,7 @@ pub fn replayers_c08() -> Vec<(&'static str, ReplayFn)> {
     vec![("cov", |v| replay_with::<CovCase>(v, &check_cov))]
 }
 pub fn replayers_c09() -> Vec<(&'static str, ReplayFn)> {
-    vec![("dev", |v| replay_with::<DevCase>(v, &check_dev))]
+    vec![("dev", |v| replay_with::<DevCase>(v, &check_dev)), ("dev-alias", |v| replay_with::<DevAliasCase>(v, &check_dev_alias))]
 }
 pub fn replayers_c10() -> Vec<(&'static str, ReplayFn)> {
     vec![("ent", |v| replay_with::<EntCase>(v, &check_ent))]
